@@ -205,7 +205,7 @@ def run_direct(st: Stats, kind, part):
 
 
 def run_concurrent(st: Stats):
-    """Two (and three) devices refreshed concurrently: ids advance by one in the order the commands are put on the wire."""
+    """Two (and three) devices refreshed concurrently: every message id of the run is used exactly once, without gaps."""
     import asyncio
     from ..simdev import SimDevice
     from ..harness import World
@@ -235,9 +235,12 @@ def run_concurrent(st: Stats):
                     st.violation(f"concurrent: driver ended with {type(out[1]).__name__}", case, "completes", str(out[1])[:100])
                 wire = [rc.v2_parse(e[3]).frame for e in w.net.log if e[1] == "tx"]
                 ids = [rc.frame_parse(f).msg_id for f in wire]
-                bad = [(a, b) for a, b in zip(ids, ids[1:]) if (b - a) % 256 != 1]
+                # with concurrent tasks the order on the wire is not the order of allocation (both orders are legitimate), but
+                # every id of the run must be used exactly once and without gaps
+                offs = sorted((i - start - 1) % 256 for i in ids)
+                bad = offs != list(range(len(ids))) if len(ids) < 256 else False
                 if bad:
-                    st.violation("concurrent: message id does not advance by one in emission order", case, "+1 mod 256", {"ids": ids[:24]})
+                    st.violation("concurrent: message ids are not a gap-free, duplicate-free run", case, "each id once", {"ids": ids[:24]})
                 st.transitions += len(ids)
                 st.ev(("concurrent", ndev, start), "ok" if not bad else "bad", True, sample={**case, "ids": ids[:12]})
             finally:
